@@ -2,6 +2,7 @@ package sstream
 
 import (
 	"bytes"
+	"context"
 	"encoding/binary"
 	"fmt"
 	"io"
@@ -110,6 +111,9 @@ type Case struct {
 	// WriteFirst: the server writes its data before it reads the client's
 	WriteFirst bool `json:"write_first,omitempty"`
 	// read deadlines reported by the transport of the server (C2STout) / of the client (S2CTout)
+	// DialCtx: the context given to DialStream: "" background | "cancel" cancelled right after DialStream
+	// returned | "deadline" its deadline expires right after DialStream returned. Either way the session goes on.
+	DialCtx string `json:"dial_ctx,omitempty"`
 	C2STout Tout `json:"c2s_tout,omitempty"`
 	S2CTout Tout `json:"s2c_tout,omitempty"`
 }
@@ -182,6 +186,10 @@ type Obs struct {
 	CFirstSeg   int
 	Panic       string
 	C2STouts, S2CTouts []int
+	// functions still registered on the dial context when it ended after DialStream had returned
+	DialCtxArmed int
+	// errors returned by the writer calls (class per call)
+	CWriteErrs, SWriteErrs []string
 	// the bytes each side handed to its conn, in order (initial payload, Write data, what the ReadFrom
 	// sources handed over): the streams the other side must receive
 	C2SHanded, S2CHanded []byte
@@ -225,6 +233,9 @@ func Match(expect, got string) bool {
 		e, _, _ := strings.Cut(expect, ":")
 		g, _, _ := strings.Cut(got, ":")
 		return e == g
+	}
+	if strings.Contains(expect, " armed=* ") {
+		return strings.Replace(expect, " armed=* ", " armed=0 ", 1) == got || strings.Replace(expect, " armed=* ", " armed=1 ", 1) == got
 	}
 	if strings.HasPrefix(expect, "ok-len ") {
 		return strings.HasPrefix(got, "ok "+strings.TrimPrefix(expect, "ok-len ")+":")
@@ -585,6 +596,18 @@ func OpLine(sid int, side string, op ROp, now int64, started bool) string {
 	return fmt.Sprintf("%d ctunnel %d %s", sid, now, B(started))
 }
 
+// armedField: what the harness can say about interruptors left on the dial context: with a scripted context it
+// counts them when the context ends; with context.Background() nothing is observable ("*": any answer matches).
+func armedField(mode string, armed, excess int) string {
+	if mode == "" {
+		return "*"
+	}
+	if armed > 0 {
+		return "1"
+	}
+	return "0"
+}
+
 func sinkSpec(sk []SinkIt) string {
 	if len(sk) == 0 {
 		return "-"
@@ -642,10 +665,24 @@ func run(c Case, sid int, cfg Cfg, keys Keys, obs *Obs, sc *Script) {
 		return
 	}
 	payload := c.Payload.Bytes()
-	cc, err := cl.DialStream(Ctx(), c.Target.Addr(), payload)
+	dctx := context.Background()
+	var sctx *ScriptCtx
+	if c.DialCtx != "" {
+		sctx = NewScriptCtx(c.DialCtx == "deadline")
+		dctx = sctx
+	}
+	cc, err := cl.DialStream(dctx, c.Target.Addr(), payload)
 	if err != nil {
 		obs.DialErr = err.Error()
 		return
+	}
+	if sctx != nil {
+		// the dial is over: whatever happens to its context now must not touch the session
+		if c.DialCtx == "deadline" {
+			obs.DialCtxArmed = sctx.Cancel(context.DeadlineExceeded)
+		} else {
+			obs.DialCtxArmed = sctx.Cancel(context.Canceled)
+		}
 	}
 	ct := d.Last
 	obs.CC, obs.CT = cc, ct
@@ -659,6 +696,7 @@ func run(c Case, sid int, cfg Cfg, keys Keys, obs *Obs, sc *Script) {
 			return
 		}
 		cres = append(cres, wr)
+		obs.CWriteErrs = append(obs.CWriteErrs, wr.Err)
 		obs.C2SHanded = append(obs.C2SHanded, wr.Handed...)
 		marks = append(marks, len(ct.Writes))
 	}
@@ -705,7 +743,7 @@ func run(c Case, sid int, cfg Cfg, keys Keys, obs *Obs, sc *Script) {
 		sc.Add(fmt.Sprintf("%d dial %s %s %s 0 %d", sid, c.Target.ModelArgs(), c.Payload.Field(), HexField(f.Salt), ts), "padding-length-zero-for-empty-payload")
 	} else {
 		sc.Add(fmt.Sprintf("%d dial %s %s %s %d %d", sid, c.Target.ModelArgs(), c.Payload.Field(), HexField(f.Salt), rnd, ts),
-			fmt.Sprintf("ok inreq=%d segs %s", inReq, toySeg(0, marks[0])))
+			fmt.Sprintf("ok inreq=%d armed=%s segs %s", inReq, armedField(c.DialCtx, obs.DialCtxArmed, len(payload)-inReq), toySeg(0, marks[0])))
 	}
 	for i, o := range c.CWrites {
 		if o.Kind == "readfrom" {
@@ -832,6 +870,7 @@ func run(c Case, sid int, cfg Cfg, keys Keys, obs *Obs, sc *Script) {
 				return
 			}
 			sres = append(sres, wr)
+			obs.SWriteErrs = append(obs.SWriteErrs, wr.Err)
 			obs.S2CHanded = append(obs.S2CHanded, wr.Handed...)
 			m = append(m, len(st.Writes))
 		}
